@@ -4,6 +4,7 @@ from __future__ import annotations
 
 import ast
 import itertools
+from typing import Any
 
 from ..guards import RoleEval, paths, simulate, weak_orders
 from ..pm import AnalysisError, unparse
@@ -18,10 +19,13 @@ EXPLANATION = (
     "interpretation over small concrete values, write plumbing (restart -> column i to variable i -> process -> "
     "inputs/outputs by their own switches -> savetxt format/delimiter/header), header/write switch agreement, reader "
     "skip predicate over all orderings of (line index, skip_lines) x blank x comment; the row loop gives an input its grid value iff "
-    "it is an active variable, decided for resolution 0 (one-point grid) and > 0 (G10)"
+    "it is an active variable, decided for resolution 0 (one-point grid) and > 0 (G10); G11 - write_from_scope together with Op.increment is "
+    "interpreted abstractly (sa/absexec.py) on engines with 1-3 inputs whose bounds and current values are symbols, for both scopes, every "
+    "size up to a bound and every active set, with the floating root estimate modelled as any integer within one of the exact root: the "
+    "matrix handed to write() is exactly the specified grid (size, inclusive equidistant values as exact linear forms, lexicographic order)"
 )
-ASSUMPTIONS = ["numpy.savetxt / hstack semantics; equidistance and the printed values themselves are numeric and not decided"]
-FLOORS = {"G10": 1, "N1": 2, "G8": 4, "W4": 8, "S4": 2, "G9": 1, "N2": 3}
+ASSUMPTIONS = ["numpy.savetxt / hstack semantics; the printed digits are not decided", "round(pow(v, 1/n)) is within one of the exact integer root (G11 runs the integer correction for all three estimates)", "grid bounds: 1-3 input variables, sizes up to 29 (quick) / 69 (thorough)"]
+FLOORS = {"G11": 3, "G10": 1, "N1": 2, "G8": 4, "W4": 8, "S4": 2, "G9": 1, "N2": 3}
 
 TRUNCATORS = {"int", "math.floor", "numpy.floor", "math.trunc", "numpy.trunc", "numpy.fix", "numpy.floor_divide"}
 ROOT_CALLS = {"pow", "math.pow", "numpy.power", "numpy.float_power"}
@@ -87,6 +91,7 @@ def _rounded(t: Term) -> bool:
 def run(check: Check) -> None:
     grid_size(check)
     active_variables(check)
+    grid_semantics(check)
     increment(check)
     write_plumbing(check)
     header_agreement(check)
@@ -553,3 +558,126 @@ def reader(check: Check) -> None:
     check.require(not bad and bool(apps), "G9", "FldExporter.write_from_reader/skip",
                   "a line is tabulated iff its index >= skip_lines and it is neither blank nor a comment" if not bad and apps else
                   f"reader disagrees with the specification: {bad[:2]}", loc(fn, h), {"rows": rows}, exhaustive=True, cases=rows)
+
+
+# ------------------------------------------------------------------------------------------------ G11 grid as a whole
+def grid_semantics(check: Check) -> None:
+    """G11 [E up to the stated bounds]: `FldExporter.write_from_scope` (together with `Op.increment`) is interpreted abstractly
+    (sa/absexec.py) on engines with 1-3 input variables whose range bounds and current values are *symbols*, for both scopes, every
+    requested size up to the bound and every set of active variables; the matrix handed to `write` must be the grid of the statement:
+
+      each variable = v  -> v values per active input;   all variables = v -> k values, k the largest integer with k^inputs <= v
+      value j of input i = minimum_i + j * (maximum_i - minimum_i) / (k - 1)   (k = 1: the minimum), j = 0..k-1, inclusive ends
+      inactive inputs keep their current value;  rows in lexicographic order, the last input varying fastest.
+
+    Floating point enters in one place only, the estimate of the k-th root: `round(pow(v, 1/n))` is modelled as *any* integer within
+    one of the exact root (three runs), so the verdict is about the integer correction that follows, not about a particular libm."""
+    import itertools
+    from fractions import Fraction
+
+    from ..absexec import AbsExec, Internal, Lin, MObj, Opaque, Raised, Unknown, _Return
+
+    p = check.program
+    fn = p.func("FldExporter.write_from_scope")
+    inc = p.func("Operation.increment")
+    check.analysed(fn)
+    check.analysed(inc)
+    node = fn.analysis_node
+    params = [a.arg for a in node.args.args]
+    if len(params) < 6:
+        raise AnalysisError("FldExporter.write_from_scope: signature not recognised")
+    _self, p_engine, p_writer, p_values, p_scope, p_active = params[:6]
+    ALL, EACH = ("enum", "AllVariables"), ("enum", "EachVariable")
+    ns = MObj("class", {"ScopeOfValues": MObj("enum", {"AllVariables": ALL, "EachVariable": EACH})})
+    bad: dict[str, str] = {}
+    cases = 0
+    max_n = 3
+    sizes = {1: range(1, 8), 2: range(1, 18), 3: range(1, 30)} if check.tier != "thorough" else {1: range(1, 12), 2: range(1, 40), 3: range(1, 70)}
+
+    def iroot(v: int, n: int) -> int:
+        k = 1
+        while (k + 1) ** n <= v:
+            k += 1
+        return k
+
+    def expected(vars_: list[MObj], active: list[bool], k: int) -> list[list[Any]]:
+        axes = []
+        for v_, act in zip(vars_, active):
+            if not act:
+                axes.append([v_.fields["value"]])
+            else:
+                mn, dr = v_.fields["minimum"], v_.fields["drange"]
+                axes.append([mn.add(dr.scale(Fraction(j, max(1, k - 1)))) for j in range(k)])
+        return [list(row) for row in itertools.product(*axes)]
+
+    def note(kind: str, text: str) -> None:
+        bad.setdefault(kind, text)
+
+    try:
+        for n in range(1, max_n + 1):
+            for scope in (EACH, ALL):
+                for v in (range(1, 5) if scope == EACH else sizes[n]):
+                    subsets = [tuple(c) for r_ in range(n + 1) for c in itertools.combinations(range(n), r_)] if (scope == EACH and v <= 3) or v in (1, 4, 9) else [tuple(range(n))]
+                    for act in subsets + [None]:
+                        for off in ((0,) if scope == EACH else (-1, 0, 1)):
+                            cases += 1
+                            vars_ = [MObj("InputVariable", {"name": f"in{i}", "minimum": Lin.sym(f"min{i}"), "maximum": Lin.sym(f"min{i}").add(Lin.sym(f"range{i}")),
+                                                            "drange": Lin.sym(f"range{i}"), "value": Lin.sym(f"cur{i}")}) for i in range(n)]
+                            engine = MObj("Engine", {"input_variables": vars_, "name": Opaque("name")})
+                            got: dict[str, Any] = {}
+
+                            def write(ex_, e, recv, args, kw, got=got):
+                                got["matrix"] = args[2] if len(args) > 2 else kw.get("x")
+                                return None
+
+                            def root_estimate(ex_, e, args, kw, n=n, off=off, v=v):
+                                # round(pow(values, 1/inputs)) or pow(...): an integer within one of the exact root
+                                return max(0, iroot(v, n) + off)
+
+                            hooks = {"method:write": write, "pow": root_estimate, "round": lambda ex_, e, args, kw: args[0],
+                                     "method:take": lambda ex_, e, recv, args, kw: args[0], "method:array": lambda ex_, e, recv, args, kw: args[0],
+                                     "method:asarray": lambda ex_, e, recv, args, kw: args[0]}
+                            ex = AbsExec(fn.qualname, hooks, helpers={"increment": inc})
+                            env: dict[str, Any] = {_self: MObj("FldExporter", {}), p_engine: engine, p_writer: Opaque("writer"), p_values: v, p_scope: scope,
+                                                   p_active: (None if act is None else frozenset(vars_[i] for i in act)),
+                                                   "FldExporter": ns, "Op": Opaque("Op"), "Operation": Opaque("Op"), "np": Opaque("np")}
+                            what = (f"{n} input(s), {'each variable' if scope == EACH else 'all variables'} = {v}, active = "
+                                    f"{'all (default)' if act is None else list(act)}" + (f", root estimate off by {off:+d}" if off else ""))
+                            try:
+                                ex.block(list(node.body), env)
+                            except _Return:
+                                pass
+                            except Raised as r:
+                                note("raises", f"{what}: raises {r.cls}")
+                                continue
+                            except Internal as i:
+                                note("raises", f"{what}: internal {i.cls} ({i.why})")
+                                continue
+                            k = v if scope == EACH else iroot(v, n)
+                            active = [True] * n if act is None else [i in act for i in range(n)]
+                            want = expected(vars_, active, k)
+                            m = got.get("matrix")
+                            if not isinstance(m, list):
+                                note("no-write", f"{what}: nothing is handed to write()")
+                                continue
+                            rows = [list(r_) if isinstance(r_, (list, tuple)) else [r_] for r_ in m]
+                            if len(rows) != len(want):
+                                note("size", f"{what}: {len(rows)} rows, specified {len(want)} (k = {k} values per active input)")
+                            elif sorted(map(repr, rows)) != sorted(map(repr, want)):
+                                diff = next((a, b) for a, b in zip(rows, want) if a != b)
+                                note("values", f"{what}: a row holds {diff[0]}, specified {diff[1]}")
+                            elif rows != want:
+                                diff = next((i_, a, b) for i_, (a, b) in enumerate(zip(rows, want)) if a != b)
+                                note("order", f"{what}: row {diff[0]} is {diff[1]}, specified {diff[2]} (lexicographic, last input fastest)")
+    except Unknown as u:
+        raise AnalysisError(str(u)) from None
+
+    def verdict(construct: str, kinds: list[str], ok_text: str) -> None:
+        hits = [bad[k_] for k_ in kinds if k_ in bad]
+        check.require(not hits, "G11", f"FldExporter.write_from_scope/{construct}", ok_text if not hits else hits[0], loc(fn), {"cases": cases}, exhaustive=True, cases=cases)
+
+    verdict("grid-size", ["size"], f"the number of rows is k^(active inputs) with k = v (each variable) or the largest k with k^inputs <= v (all variables), for a root "
+            f"estimate within one of the exact root ({cases} abstract instances)")
+    verdict("grid-values", ["values", "no-write", "raises"], "every row holds minimum + j * range / (k - 1) for the active inputs (both ends included, the minimum alone for "
+            "k = 1) and the current value for the inactive ones")
+    verdict("grid-order", ["order"], "rows are in lexicographic order with the last input varying fastest")
